@@ -374,3 +374,24 @@ Proof.
     + split; [exact Hk|]. cbn [with_present m_fields m_present m_failed]. intros i s Hi Hm Hfl. apply Hrem; [exact Hi|exact Hm|exact Hfl|].
       intros ->. rewrite (In_zlookup_nodup id s _ Hnd Hi) in Es. discriminate.
 Qed.
+
+(* the setters by id keep the object clean: the element written becomes populated, nothing else changes *)
+Theorem m_set_field_clean S m id val : msg_clean S m -> msg_clean S (fst (m_set_field S m id val)).
+Proof.
+  intros (Hk & Hf).
+  assert (G : forall p, (forall i, zmem i (m_present m) = true -> zmem i p = true) -> forall fl, map fst fl = map fst (m_fields m) ->
+              (forall i, zmem i p = false -> zlookup i fl = zlookup i (m_fields m)) ->
+              forall mm, m_fields mm = fl -> m_present mm = p -> m_failed mm = m_failed m -> msg_clean S mm).
+  { intros p Hp fl Hkl Hfl mm E1 E2 E3. split; [rewrite E1, Hkl; exact Hk|]. intros i s Hi Hm Hfa. rewrite E2 in Hm. rewrite E3 in Hfa. rewrite E1, (Hfl i Hm).
+    apply Hf; [exact Hi| |exact Hfa]. destruct (zmem i (m_present m)) eqn:E; [|reflexivity]. rewrite (Hp i E) in Hm. discriminate. }
+  assert (Hadd : forall k i, zmem i (m_present m) = true -> zmem i (zadd k (m_present m)) = true) by (intros k i H; rewrite zmem_zadd, H; apply Bool.orb_true_r).
+  unfold m_set_field. destruct (id =? 0) eqn:E0.
+  - destruct (setbytes_f (FPrim (ms_mti S)) _ val) as [st r]. cbn [fst].
+    apply (G (zadd 0 (m_present m)) (Hadd 0) (m_fields m)); reflexivity || (intros; reflexivity).
+  - destruct (id =? 1) eqn:E1.
+    + cbn [fst]. apply (G (zadd 1 (m_present m)) (Hadd 1) (m_fields m)); reflexivity || (intros; reflexivity).
+    + destruct (zlookup id (ms_fields S)) as [s0|]; [|split; assumption]. destruct (zlookup id (m_fields m)) as [st|] eqn:Est; [|split; assumption].
+      destruct (setbytes_f s0 st val) as [st' r]. cbn [fst].
+      apply (G (zadd id (m_present m)) (Hadd id) (zupdate id st' (m_fields m))); try reflexivity; [apply map_fst_zupdate|].
+      intros i Hm. rewrite zmem_zadd in Hm. apply Bool.orb_false_iff in Hm. destruct Hm as (Hne & _). apply zlookup_zupdate_other. lia.
+Qed.
